@@ -143,6 +143,9 @@ def scripted(ver):
         # version reports that a version library may accept although they have no minor section, or a modifier
         [("recv", "0;255;3;0;2;2"), ("recv", "0;255;0;0;18;2"), ("recv", "0;255;3;0;2;latest"), ("recv", "0;255;3;0;2;1"), ("recv", "0;255;3;0;2;2.2-beta"),
          ("recv", "0;255;3;0;2;v2.1"), ("recv", "0;255;0;0;18;dev"), ("recv", "0;255;3;0;9;log")],
+        # an outstanding presentation request survives everything but that node's own presentation (gateway restarts, version replies, other nodes)
+        [("recv", "5;1;1;0;0;1"), ("recv", f"0;255;0;0;18;{v}"), ("recv", "5;1;1;0;0;1"), ("recv", f"0;255;3;0;2;{v}"), ("recv", "5;1;1;0;0;1"),
+         ("recv", "7;1;1;0;0;1"), ("recv", "5;255;0;0;17;x"), ("recv", "5;1;1;0;0;1"), ("recv", "5;1;1;0;0;1"), ("recv", "7;1;2;0;0;")],
         # a node that restarts (presents again, so it is not known to be sleeping any more) between two sends for one key
         pres + [("recv", wake), ("send", 1, 1, 1, 0, 0, "1", True), ("recv", f"1;255;0;0;17;{v}"), ("recv", "1;1;0;0;6;temp"),
                 ("send", 1, 1, 1, 0, 0, "0", True), ("recv", wake), ("recv", wake)],
